@@ -10,12 +10,16 @@ from vlib import ToolError
 # property -> plan.  mc: exhaustive configurations (module names);
 # gen: (generation module, quick count, thorough count, depth, drain)
 PLAN = {
-    "C01": {"mc": ["MC_Lease", "MC_Prune"], "gen": [("Gen_Mixed", 100, 3000, 25, True), ("Gen_Prune", 60, 1500, 34, True), ("Gen_DeadLetter", 40, 1000, 32, True), ("Gen_Snap", 60, 1500, 30, True)]},
+    "C01": {"mc": ["MC_Lease", "MC_Prune"], "gen": [("Gen_Mixed", 100, 3000, 25, True), ("Gen_Prune", 60, 1500, 34, True), ("Gen_DeadLetter", 40, 1000, 32, True), ("Gen_Snap", 60, 1500, 30, True),
+                                                    # every short history around snapshots / seeks between sibling subscriptions
+                                                    ("BFS_Snap", 0, 60000, 8, False)]},
     "C02": {"mc": ["MC_Lease", "MC_Names"], "gen": [("Gen_Mixed", 160, 4000, 25, True), ("Gen_Names", 60, 1500, 32, True), ("Gen_Snap", 60, 1500, 30, True), ("BFS_Recreate", 0, 0, 6, False)]},
     "C03": {"mc": ["MC_Lease", "MC_DeadLetter"], "gen": [("Gen_Mixed", 120, 3000, 25, True), ("Gen_Ordered", 60, 1500, 30, True), ("Gen_DeadLetter", 60, 1500, 32, True)]},
     "C04": {"mc": ["MC_Lease", "MC_Timing"], "gen": [("Gen_Mixed", 80, 2500, 25, True), ("Gen_Timing", 60, 2000, 30, True), ("Gen_DeadLetter", 40, 1000, 32, True),
                                                      ("Gen_Lease", 100, 3000, 60, False, 100), ("BFS_Blocked", 0, 0, 6, False)]},
-    "C05": {"mc": ["MC_Ordered"], "impl": ["MC_ImplSnap"], "impl_thorough": ["MC_ImplSnap_thorough", "MC_ImplSeek"], "gen": [("Gen_Ordered", 240, 6000, 30, True), ("Gen_Mixed", 80, 2000, 25, True)]},
+    "C05": {"mc": ["MC_Ordered"], "impl": ["MC_ImplSnap"], "impl_thorough": ["MC_ImplSnap_thorough", "MC_ImplSeek"], "gen": [("Gen_Ordered", 240, 6000, 30, True), ("Gen_Mixed", 80, 2000, 25, True),
+                                                                                                                            # every short history of keyed publishes / pulls / acks / full rewinds on one ordered subscription
+                                                                                                                            ("BFS_Ordered", 0, 0, 8, False)]},
     "C06": {"mc": ["MC_DeadLetter"], "gen": [("Gen_DeadLetter", 240, 6000, 32, True), ("Gen_Mixed", 60, 1500, 25, True)]},
     "C12": {"mc": ["MC_Names"], "gen": [("Gen_Names", 300, 6000, 32, False)]},
     "C13": {"mc": ["MC_Seek"], "impl": ["MC_ImplSnap"], "impl_thorough": ["MC_ImplSnap_thorough", "MC_ImplSeek"], "gen": [("Gen_Seek", 120, 4000, 32, True), ("Gen_Snap", 80, 4000, 30, True), ("BFS_Snap", 0, 60000, 8, False)]},
